@@ -410,7 +410,7 @@ class Recompile(Contract):
             return ("C14", "C09", "C13", "C07", "C08")
         if name.startswith("ensures.switches-completely") or name.startswith("ensures.no-op") or name.startswith("ensures.invariant"):
             # the evaluator runs the text it was last given: every property about "the experiment's behaviour" relies on it
-            return ("C11", "C01", "C02", "C05", "C08", "C09", "C12")
+            return ("C11", "C01", "C02", "C05", "C08", "C09", "C12", "C03", "C07", "C10", "C13", "C14", "C15")
         if name.startswith("raises.") or name.startswith("ensures.returns") or kind in ("safety", "pre-callee"):
             return ("C11",)
         if "deterministic" in name or "no-global" in name:
@@ -475,7 +475,9 @@ class RunExperimentDefault(Contract):
 
 class EvaluatorCall(Contract):
     target = "pyab_experiment.experiment_evaluator:ExperimentEvaluator.__call__"
-    props = ("C11", "C09", "C01", "C17")
+    # the public entry point forwards the caller's fields untouched: routing (C02), the key (C12), totality over values (C15) and
+    # the equivalence with the generated module text (C14) all go through it
+    props = ("C11", "C09", "C01", "C17", "C02", "C12", "C14", "C15")
 
     def shapes(self):
         def build(p):
